@@ -163,7 +163,7 @@ var ocspAlphabet = []string{
 	"good-other-serial",
 	"revoked-reason-hold", "revoked-reason-remove-from-crl", "revoked-reason-unspecified", "revoked-reason-aa-compromise", "revoked-reason-hold-at-after-signing",
 	"revoked-at-after-signing", "revoked-at-after-signing-inv-malformed", "revoked-at-after-signing-inv-before", "revoked-at-equal-signing",
-	"revoked-inv-before", "revoked-inv-equal", "revoked-inv-after", "revoked-inv-malformed", "revoked-inv-trailing",
+	"revoked-inv-before", "revoked-inv-equal", "revoked-inv-next-whole-second", "revoked-inv-after", "revoked-inv-malformed", "revoked-inv-trailing",
 	"good-inv-after", "unknown-inv-after", "revoked-delegate-noeku-inv-after",
 	"good-critext", "good-nocheck",
 	"err-unauthorized", "err-malformed", "err-internal", "err-trylater", "err-sigrequired",
@@ -266,6 +266,9 @@ func (c *ocspCtx) behaviour(label string) *httpBehaviour {
 		spec.InvDate = &t
 	case "revoked-inv-equal":
 		t := stRef.Truncate(time.Second)
+		spec.InvDate = &t
+	case "revoked-inv-next-whole-second":
+		t := stRef.Truncate(time.Second).Add(time.Second)
 		spec.InvDate = &t
 	case "revoked-inv-after", "good-inv-after", "unknown-inv-after":
 		t := stRef.Add(time.Hour)
@@ -562,11 +565,22 @@ func (c *crlCtx) behaviour(label string) *fetchBehaviour {
 		}
 		panic("unknown crl behaviour " + label)
 	}
+	durl := ""
+	if delta != nil && len(base.Freshest) == 0 && base.FreshestRaw == nil {
+		// the base says where its delta is (nothing in the check itself reads this; the real fetcher does)
+		durl = fmt.Sprintf("http://delta.%s.test/%s.crl", strings.Map(func(r rune) rune {
+			if r >= 'a' && r <= 'z' || r >= '0' && r <= '9' {
+				return r
+			}
+			return '-'
+		}, strings.ToLower(c.issuer.Spec.CN)), label)
+		base.Freshest = []string{durl}
+	}
 	b := &corecrl.Bundle{BaseCRL: c.parse(buildCRL(c.issuer, base))}
 	if delta != nil {
 		b.DeltaCRL = c.parse(buildCRL(c.issuer, *delta))
 	}
-	return &fetchBehaviour{bundle: b}
+	return &fetchBehaviour{bundle: b, deltaURL: durl}
 }
 
 // ---------------------------------------------------------------------------------------------
@@ -664,6 +678,8 @@ type chainCase struct {
 	// a sibling of the leaf with this serial (same issuer, same URLs) is checked first, with the same validator, fetcher and
 	// bundle objects: what the call under observation returns must not depend on calls made before it
 	warmupSerial *big.Int
+	// fraction of a second added to the (non-zero) signing time: dates inside certificates and lists have whole seconds only
+	stFrac time.Duration
 }
 
 var (
@@ -783,7 +799,7 @@ func runChainCase(r *Runner, cc chainCase, idx int) {
 	now := time.Now()
 	st := time.Time{}
 	if !cc.stZero {
-		st = now.Add(-30 * time.Minute).Truncate(time.Second)
+		st = now.Add(-30 * time.Minute).Truncate(time.Second).Add(cc.stFrac)
 	}
 	iss := buildRevoChain(&cc)
 	pki := &revoPKI{other: getOtherCA(), delegates: map[string]*Issued{}, leaves: map[string]*Issued{}}
@@ -819,7 +835,7 @@ func runChainCase(r *Runner, cc chainCase, idx int) {
 			}
 			ft.m[u] = b
 			crlEnv[u] = absFetch(b, issuer.Cert)
-			if cc.realFetcher && (b == nil || b.err != nil || b.bundle == nil || b.bundle.BaseCRL == nil || b.bundle.DeltaCRL != nil || b.panicV != nil) {
+			if cc.realFetcher && (b == nil || b.err != nil || b.bundle == nil || b.bundle.BaseCRL == nil || (b.bundle.DeltaCRL != nil && b.deltaURL == "") || b.panicV != nil) {
 				// served as a 404 through the real fetcher (see below): a failed download
 				crlEnv[u] = map[string]any{"base": nil}
 			}
@@ -831,6 +847,27 @@ func runChainCase(r *Runner, cc chainCase, idx int) {
 	}
 	ctx, cancelCtx := context.WithCancel(context.Background())
 	defer cancelCtx()
+	if cc.cancel == "at-request-2" {
+		// only used with one CRL-only certificate behind the real fetcher: request 1 is the base list, request 2 its delta; the
+		// download of the bundle fails as a whole
+		for _, ci := range certsIn {
+			ce := ci.(map[string]any)["crlEnv"].(map[string]any)
+			for u := range ce {
+				ce[u] = map[string]any{"base": nil}
+			}
+		}
+		var mu sync.Mutex
+		n := 0
+		tr.arrive = func(string) {
+			mu.Lock()
+			n++
+			hit := n == 2
+			mu.Unlock()
+			if hit {
+				cancelCtx()
+			}
+		}
+	}
 	if cc.cancel == "before" || cc.cancel == "during" {
 		// every exchange of this call ends with the context's error: abstractly, every source fails
 		for _, ci := range certsIn {
@@ -900,8 +937,11 @@ func runChainCase(r *Runner, cc chainCase, idx int) {
 				// the CRLs travel over the scripted transport through the real HTTPFetcher (no cache): a URL the fetcher refuses is
 				// refused by the fetcher itself; a scripted failure is a 404; bundles with a delta are not served this way
 				for u, b := range ft.m {
-					if b != nil && b.err == nil && b.bundle != nil && b.bundle.BaseCRL != nil && b.bundle.DeltaCRL == nil && b.panicV == nil {
+					if b != nil && b.err == nil && b.bundle != nil && b.bundle.BaseCRL != nil && (b.bundle.DeltaCRL == nil || b.deltaURL != "") && b.panicV == nil {
 						tr.m[u] = &httpBehaviour{body: b.bundle.BaseCRL.Raw}
+						if b.bundle.DeltaCRL != nil {
+							tr.m[b.deltaURL] = &httpBehaviour{body: b.bundle.DeltaCRL.Raw}
+						}
 					} else {
 						tr.m[u] = &httpBehaviour{status: 404, body: []byte("no such list")}
 					}
@@ -1072,7 +1112,7 @@ func runChainCases(r *Runner, cases []chainCase) {
 		// every fourth eligible case is preceded by a check of a sibling certificate with the same validator, fetcher and
 		// bundle objects (a result must not depend on the calls made before it)
 		c := &cases[i]
-		if i%4 == 1 && c.warmupSerial == nil && c.mode != "ocsp" && c.cancel == "" && !c.deprecatedValidate && c.breakChain == "" && len(c.levels) >= 1 {
+		if i%4 == 1 && c.warmupSerial == nil && c.mode != "ocsp" && c.cancel == "" && !c.deprecatedValidate && !c.realFetcher && c.breakChain == "" && len(c.levels) >= 1 {
 			c.warmupSerial = big.NewInt(31337)
 			c.tags = append(append([]string{}, c.tags...), "after-sibling")
 		}
